@@ -11,6 +11,7 @@ Open Scope string_scope.
 
 Theorem SRC_inventory_traverse : inv_traverse = [
   ("file attributes", ["#![allow(clippy::redundant_closure_call)]"]);
+  ("use crate :: { Arena , Node , NodeId }", []);
   ("struct Iter", ["Clone"]);
   ("impl Iter < 'a , T >", ["new := { let node = node . into () ; Self { arena , node } }"]);
   ("struct DoubleEndedIter", ["Clone"]);
